@@ -37,7 +37,7 @@ fn params(t: Tier) -> (usize, usize, usize) {
 }
 
 fn sources() -> Vec<Name> {
-    vec![nm("a"), nm("b.a"), nm("c.b.a"), nm("B.A"), nm("x"), nm("xa"), nm("b"), nm("a.a")]
+    vec![nm("a"), nm("b.a"), nm("c.b.a"), nm("B.A"), nm("x"), nm("xa"), nm("b"), nm("a.a"), nm("zone.example"), nm("example.com")]
 }
 
 fn targets() -> Vec<Name> {
@@ -201,6 +201,10 @@ fn l5() -> Vec<Vec<u8>> {
     m.ar.push(mx_rec(&with_a, 1, 1, &nm("a")));
     v.push(encode(&m, Strategy::Max));
     v.push(encode(&m, Strategy::Plain));
+    let al = aligned_pointer_packets();
+    v.push(al[4].clone());
+    v.push(al[5].clone());
+    v.push(al[12].clone());
     v
 }
 
